@@ -111,6 +111,14 @@ def run_shard(shard):
         for segs in create_paths(spec):
             check_create(st, doc0, text, shp, segs, paths.render(segs, "/"),
                          "q")
+        if corpus.size(spec) <= 3:
+            # new keys holding every character the path syntax escapes,
+            # spelled with backslashes and with quotes, in both notations
+            for segs in punct_create_paths(spec):
+                for sep in (".", "/"):
+                    for style in ("bs", "q"):
+                        check_create(st, doc0, text, shp, segs,
+                                     paths.render(segs, sep, style), "q")
         if di == lo:
             st.sample({"doc": text, "op": "create", "path": "/a/z[2]"})
     return st
@@ -196,6 +204,27 @@ def create_paths(spec):
                 out.append(prefix + t)
             for i, v in enumerate(s[1]):
                 walk(v, prefix + (("idx", i),))
+    walk(spec, ())
+    return out
+
+
+PUNCT_KEYS = ("y.z", "y/z", "y z", "y'z", 'y"z', "(y)", "y\\z", "[y]", "y^",
+              "$y", "y%z", ".y", "y.", "a.b.c")
+
+
+def punct_create_paths(spec):
+    out = []
+
+    def walk(s, prefix):
+        if isinstance(s, tuple) and s[0] == "m":
+            if all(isinstance(k, str) for k, _ in s[1]):
+                for key in PUNCT_KEYS:
+                    out.append(prefix + (("key", key),))
+                    out.append(prefix + (("key", key), ("key", "x")))
+                    out.append(prefix + (("key", "z"), ("key", key)))
+            for k, v in s[1]:
+                if isinstance(k, str):
+                    walk(v, prefix + (("key", k),))
     walk(spec, ())
     return out
 
